@@ -205,6 +205,7 @@ class RunResult:
         self.par_iters = 0
         self.steps = 0
         self.exact_ok = True
+        self.poison_arith = False  # uninitialised data entered arithmetic
         self.aborted = None
         self.range_obs = None
         self.config = None
@@ -320,6 +321,7 @@ class Interp:
         if reduce:
             old = st.data[off]
             if old is POISON or val is POISON:
+                self.res.poison_arith = True
                 val = POISON
             else:
                 val = old + val
@@ -375,6 +377,7 @@ class Interp:
             l = self.ev(e.lhs, env)
             r = self.ev(e.rhs, env)
             if l is POISON or r is POISON:
+                self.res.poison_arith = True
                 return POISON
             if op == "+":
                 v = l + r
@@ -428,6 +431,7 @@ class Interp:
         if c is _S.USub:
             v = self.ev(e.arg, env)
             if v is POISON:
+                self.res.poison_arith = True
                 return v
             return -v
         if c is _S.ReadConfig:
